@@ -1,4 +1,5 @@
 import GoSup.Proofs.SupErr
+import GoSup.Proofs.SupGate
 /-!
 # C03 — property theorems (readiness-gated startup, clean abort)
 -/
@@ -114,5 +115,22 @@ theorem c03_gate_exit (s s' : St) (a : Act) (i : Nat) (hs : step s a = some s')
        have := hne i
        rcases hg with hg | hg | hg | hg <;> simp_all [St.emit] <;>
          first | (exact absurd hout (hsd _)) | (subst_vars; exact absurd hout (hsd _)))
+
+/-- **(a), every reachable state.** For any number of runnables, any capability mix, any number of
+Shutdown() callers and any schedule: if the log shows that runnable `j`'s Run was invoked, then for
+every Stateable runnable `i` registered before it the log shows a readiness poll answered `true`, or
+the supervisor's context is cancelled. -/
+theorem c03_gated (caps : List Caps) (users : Nat) (s : St) (h : Reachable caps users s) (j : Nat)
+    (hinv : Ev.runInvoke j ∈ s.log) (i : Nat) (hlt : i < j) (hst : (capAt s i).stateable = true) :
+    Ev.poll i true ∈ s.log ∨ s.ctx = true := by
+  have hi := gateInv_reach h
+  exact hi.launched j (hi.invoked j hinv) i hlt hst
+
+/-- the hypotheses are met by a non-trivial run: a Stateable gate that needs two polls, then the second runnable -/
+example : ∃ s, run lts (initSt [{ stateable := true }, {}] 0)
+      [.mainStart, .mainLaunch 0, .rgInvoke 0, .gateWake 0, .pollAns 0 false, .gateTickFire 0, .tickAns 0 true,
+       .mainLaunch 1, .rgInvoke 1] = some s
+    ∧ Ev.runInvoke 1 ∈ s.log ∧ Ev.poll 0 true ∈ s.log ∧ s.ctx = false := by
+  refine ⟨_, rfl, ?_, ?_, rfl⟩ <;> decide
 
 end GoSup.Props.C03
